@@ -399,12 +399,12 @@ func main() {
 	}
 	r := gen.NewRand(f.Seed)
 	accessCases()
-	nWorlds := f.N(40, 1500)
+	nWorlds := f.N(30, 400)
 	for i := 0; i < nWorlds; i++ {
 		wd := genWorld(r, i%5 != 4, fmt.Sprintf("w%d", i))
 		runShardCases(r.Fork(), &wd, i%8 != 7, 3, nil)
 	}
-	nDirs := f.N(6, 150)
+	nDirs := f.N(4, 40)
 	for i := 0; i < nDirs; i++ {
 		runEndToEnd(r.Fork(), i%6 != 5, f.N(6, 10))
 	}
